@@ -145,7 +145,8 @@ func genC32(c *Case, r *kit.Rand) {
 		c.S = genMutations(r.Fork("S"), r.Range(1, 5), c.InFunc, true)
 		c.T = genMutations(r.Fork("T"), r.Range(1, 5), c.InFunc, true)
 		c.Ctx = kit.Pick(r, []string{"background", "coproc-like-bg-subshell", "procsubst-out", "pipe-both", "bg-cmdsubst", "procsubst-in-bg", "two-bg", "bg-func", "pipe-all",
-			"bg-outliving-subshell", "bg-outliving-cmdsubst", "procsubst-outliving-subshell", "bg-outliving-function-subshell", "bg-in-bg"})
+			"bg-outliving-subshell", "bg-outliving-cmdsubst", "procsubst-outliving-subshell", "bg-outliving-function-subshell", "bg-in-bg",
+			"pipe-left-fatal", "pipe-all-left-fatal", "pipe-left-exits", "bg-fatal", "cmdsubst-fatal-in-bg"})
 		c.Faults = genFaults(r.Fork("faults"), []string{"mkfifo-fail", "fifo-open-fail", "exec-fail", "short-read"})
 		// The FIFO error paths are where a child goroutine reports through
 		// runner fields; make sure they are reached often, and place the
@@ -189,6 +190,18 @@ func (c *Case) c32RaceProgram() string {
 		l = append(l, "( : <(\nsleep 1\n"+S+"\n) )", T, "sleep 2", T)
 	case "bg-outliving-function-subshell":
 		l = append(l, "of() { ( {\nsleep 1\n"+S+"\n} & ); }", "of", T, "sleep 2", T)
+	case "pipe-left-fatal":
+		// the left side ends in a fatal handler error while the right side
+		// is still running statements
+		l = append(l, "{\n"+S+"\nfatal\n} | {\n"+T+"\n"+T+"\ndrain >/dev/null\n}")
+	case "pipe-all-left-fatal":
+		l = append(l, "{\n"+S+"\nfatal\n} |& {\n"+T+"\ndrain >/dev/null\n"+T+"\n}")
+	case "pipe-left-exits":
+		l = append(l, "{\n"+S+"\nexit 3\n} | {\n"+T+"\ndrain >/dev/null\n"+T+"\n}")
+	case "bg-fatal":
+		l = append(l, "{\n"+S+"\nfatal\n} &", T)
+	case "cmdsubst-fatal-in-bg":
+		l = append(l, "{ x=$(\n"+S+"\nfatal\n); "+"\n"+S+"\n} &", T)
 	case "bg-in-bg":
 		l = append(l, "{ {\nsleep 1\n"+S+"\n} & "+"\n"+T+"\n} &", T, "sleep 2", S)
 	}
@@ -265,6 +278,9 @@ func genC32Wait(c *Case, r *kit.Rand) {
 var c29Pool = []string{
 	"shopt -s expand_aliases", "alias ll='echo ll-alias '", "alias chain='ll '", "alias e2='echo {x,y}'",
 	"ll {a,b}{1,2} tail", "chain ll e2 z", "e2 w",
+	"set -x", "set +x", "set -x; arr[2]=$s1; set +x", "set -x; for v in a b c; do arr[0]=$v; done; set +x", "set -x; s1+=$s1 s2=$s1 true; ENVARR[1]=$s1; set +x", "set -x; declare -a xa=($s1 {1,2}); xa+=($s1); set +x", "set -x; [[ $s1 == f* ]]; (( n = 2 * 3 )); set +x", "set -x; f xt{1,2}; cat <<< $s1 >/dev/null; set +x",
+	"declare -n nr=ENVSTR; nr=via-ref", "declare -n nra=ENVARR; nra[0]=via-ref; nra+=(more)", "declare -n nrm=ENVMAP; nrm[k]=via-ref", "export ENVMAP; ENVMAP[k]=after-export", "declare -x ENVARR; ENVARR[0]=after-declare", "declare -A ENVMAP; ENVMAP[z]=after-declare-A", "lx() { local -x ENVMAP; ENVMAP[k]=in-local; }; lx", "readonly ENVSPARSE; ENVSPARSE[2]=ro 2>/dev/null", ": ${ENVARR[0]:=d} ${ENVARR[5]=e} ${ENVMAP[nk]:=f} ${ENVSTR:=g}", "((ENVSTR=3))", "printf -v 'ENVARR[1]' %s pv 2>/dev/null", "getopts ab ENVSTR -a", "for ENVSTR in l1 l2; do :; done", "select_skip=1", "unset -v ENVMAP", "ENVARR=()", "declare -a ENVMAP2=(\"${ENVARR[@]}\"); ENVMAP2[0]=copy",
+	"time -p true 2>/dev/null", "! false", "coproc_skip=1", "for ((i=0;i<2;i++)); do echo $i{a,b}; done", "until true; do :; done", "select_x=1", "echo ${s1@Q} ${s1^^} ${!s*} ${#arr[@]} ${arr[@]:1:2}", "echo $(< /home/f1.txt)", "x=$(( ${#s1} + 1 )); echo $x", "case $s1 in f*|g*) echo {c1,c2};; *) :;; esac", "[[ $s1 =~ ^(f)(o+)$ ]] && echo ${BASH_REMATCH[1]}", "ff() { local a1=$1; shift; echo \"$a1 $*\" {y,z}; }; ff {1,2} 3", "al2() { :; }; alias al2='echo aliased '; al2 ll x", "unalias ll 2>/dev/null", "eval 'ff e{1,2}' 2>/dev/null", "source /home/d1/g.sh", "trap 'echo {t1,t2}' ERR; false", "wait",
 	"echo $s1{a,b}", "echo \"p q\"{1..3}", "echo {a,\"b c\"}.txt", "echo ${s1}{1,2}", "echo $(echo cs){x,y}", "echo '{q}'{1,2}$s1", "for i in $s1{x,y} \"z\"{1,2}; do echo $i; done", "arr3=($s1{a,b} \"q\"{1,2})", "export ex$s1{a,b}=1 2>/dev/null", "declare v$s1{1,2}=val 2>/dev/null", "ll $s1{m,n}", "cat <<< $s1{h,i}", "echo ~{a,b} {a,b}$((1+1))", "case $s1{a,b} in *) echo c;; esac", "[[ $s1{a,b} == f* ]] || true", "f $s1{p,q} | cat", "{ echo $s1{bg1,bg2}; } &",
 	"declare -a arr=({1..3} $s1)", "declare v{1,2}=val", "export ex{a,b}=1", "local_fn() { local q{1,2}=z; echo $q1; }; local_fn",
 	"for i in {1..3} x{a,b}; do echo $i; done", "arr2=({a,b} c [5]=d)", "arr2+=(e{1,2})", "s1+=x", "ENVARR+=x", "ENVARR+=(y z)", "ENVARR+=([1]=X)", "ENVARR+=([0]=Z w)", "ENVARR+=([-1]=neg)", "ENVSPARSE+=([2]=chg)", "ENVSPARSE+=([5]=chg [9]=far)", "ENVMAP+=([k]=new)", "ENVMAP+=([q]=1)", "ENVARR[1]+=app", "ENVMAP[k]+=app", "unset 'ENVSPARSE[2]'", "ENVARR=(${ENVARR[@]} more)", "read -a ENVARR <<< 'r1 r2'", "mapfile -t ENVARR <<< mapped", "declare -a ENVARR", "local_env() { local ENVARR; ENVARR+=(l); }; local_env", "f_env() { ENVARR[0]=in-func; ENVMAP[k]=in-func; }; f_env", "( ENVARR[0]=sub; ENVMAP[k]=sub )", "{ ENVARR+=([1]=bg); } &", "x=$(ENVARR[1]=cs; echo ${ENVARR[1]})", "ENVARR[0]=pipe | cat", "ENVARR[0]=changed", "ENVSPARSE[3]=new", "ENVSPARSE+=(w)", "ENVMAP[k]=changed", "ENVMAP[n]=1", "unset 'ENVMAP[k]'", "unset 'ENVARR[1]'", "unset ENVARR", "ENVSTR+=more", "unset ENVSTR", "export ENVSTR=re", "ENVRO=try 2>/dev/null", "declare -x ENVARR", "readonly ENVMAP",
@@ -306,6 +322,12 @@ var c30ProgPool = []string{
 	"read line; echo \"read=[$line] rc=$?\"", "cat", "echo to-stderr >&2", "wait; echo waited=$?", "echo $unset_var_ref", "emit 2 | drain", "x=$(echo sub); echo $x", "cat < /home/f1.txt", "echo out > /home/p.txt; cat /home/p.txt",
 	"wait g1 2>&1; echo wg1=$?", "true & wait g1; echo first-job=$?", "(exit 4) & wait $!; echo last-job=$?", "true & echo last=$!", "wait g2 2>&1; echo wg2=$?",
 	"for i in 1 2; do echo $i; break 2; done", "for j in a b c; do echo $j; n=$j; done", "while true; do break 5; done", "for k in x y; do continue 2; echo unreached; done", "until false; do echo once; break; done", "i=0; while [ $i -lt 3 ]; do i=$((i+1)); echo i=$i; done",
+	"shopt -s -o nounset", "shopt -u -o nounset", "shopt -s -o noglob", "shopt -u -o noglob", "shopt -s -o errexit", "shopt -s -o pipefail", "set -f", "set +f", "set +u", "set -o noglob", "shopt -s nullglob", "shopt -s extglob", "shopt -s globstar", "shopt -u expand_aliases",
+	// an option toggled by one top-level statement and observed by the next
+	"shopt -s -o nounset\necho \"[$undef_var]\"", "shopt -s -o noglob\necho /home/d1/*.sh", "set -u\nshopt -u -o nounset\necho \"[$undef_var]\"", "set -f\nshopt -u -o noglob\necho /home/d1/*.sh",
+	"set -u\necho \"[$undef_var]\"", "set -f\necho /home/d1/*.sh", "shopt -s nullglob\necho /home/d1/nomatch*", "shopt -s dotglob\necho /home/d1/*", "shopt -s extglob\necho /home/d1/@(g|loop).sh", "shopt -s globstar\necho /home/**/g.sh", "shopt -s nocaseglob\necho /home/d1/G*",
+	"set -o pipefail\nfalse | true\necho rc=$?", "set -e\nfalse\necho not-reached", "set -o allexport\nav=1\ndeclare -p av", "shopt -s expand_aliases\nalias ea='echo ea-body'\nea", "IFS=:\nv=a:b\necho $v", "OPTIND=1\ngetopts ab o -a -b\ngetopts ab o -a -b\necho $o$OPTIND",
+	"echo \"[$undef_var]\"", "echo /home/d1/*.sh", "files=(/home/d1/*); echo ${#files[@]}", "echo /home/d1/nomatch*", "echo ${undef_arr[0]-dflt} \"${undef2:-x}\"", "echo /home/d1/@(g|loop).sh", "echo /home/**/g.sh",
 	"echo rc=$?", "echo rc=$?", "f_ret() { return 3; }; f_ret", "( exit 6 )", "true | false", "! true", "x=$(fail 9)", "getopts ab o -b; echo \"o=$o OPTIND=$OPTIND\"", "shift 2>/dev/null; echo \"params:$#\"", "local_top=1 2>&1", "trap 'echo p-exit' EXIT", "alias pa='echo pa'; shopt -s expand_aliases", "pa 2>&1",
 	"type echo >/dev/null; echo rc=$?", "exit 5", "echo unreachable-maybe", "set -e", "set -u", "trap 'echo p-err' ERR",
 }
